@@ -19,3 +19,5 @@ for d in seeded/C*/; do
   else echo "$id MISSED $((e-s))s" >> $out; fi
   tail -1 $out
 done
+# the evidence files now describe seeded runs: regenerate them from the unchanged tree before committing
+echo "NOTE: run tools/runall.sh quick before committing (evidence/ was rewritten by the seeded runs)" >&2
